@@ -113,8 +113,12 @@ def assert_equal(res, name, lhs, rhs, assumptions, tol=1e-8, timeout_ms=60000, l
             sym.append((i, d))
     res.stat("entries_compared", len(ds)); res.stat("entries_symbolic", len(sym))
     if not sym:
-        res.queries.append({"name": name + "[all entries syntactically equal]", "verdict": "unsat", "seconds": 0.0,
-                            "nvars": 0, "nontrivial": False, "hash": "trivial"})
+        # every difference normalised to a numeral within tolerance: decided by z3's simplifier (canonical form of
+        # lhs - rhs), no search needed.  Non-trivial iff symbolic terms were involved.
+        insym = [t for t in list(lhs) + list(rhs) if isinstance(t, (z3.ExprRef, symnp.SR))]
+        hh = "simp-%x" % (hash(tuple(to_term(t).hash() for t in insym[:200])) & 0xffffffffffff) if insym else "trivial"
+        res.queries.append({"name": name + " [all differences normalise to 0 in z3.simplify]", "verdict": "unsat", "seconds": 0.0,
+                            "nvars": len(insym), "nontrivial": bool(insym), "hash": hh})
         return "unsat", None, None
     t = z3.RealVal(tolq)
     # one big disjunction puts one tableau row per entry into simplex; chunks keep each LP small
